@@ -620,12 +620,12 @@ const ORIGIN_STATUSES: &[usize] = &[200, 520, 200, 299, 200, 444];
 fn origin_response_head(upgrade: bool) -> Vec<u8> {
     let st = ORIGIN_STATUS.load(std::sync::atomic::Ordering::SeqCst);
     if !upgrade && st != 200 {
-        return format!("HTTP/1.1 {} Whatever The Origin Says\r\nContent-Type: application/x-c18\r\nX-Origin: c18\r\nSet-Cookie: origin=c18-SECRET-set-cookie\r\n\r\n", st).into_bytes();
+        return format!("HTTP/1.1 {} Whatever The Origin Says\r\nContent-Type: application/x-c18\r\nX-Origin: c18\r\nSet-Cookie: origin=c18-SECRET-set-cookie\r\nSet-Cookie: second=c18-2nd; Path=/\r\n\r\n", st).into_bytes();
     }
     if upgrade {
-        b"HTTP/1.1 101 Switching Protocols\r\nUpgrade: websocket\r\nConnection: Upgrade\r\nSec-WebSocket-Accept: c18-accept\r\nSet-Cookie: origin=c18-SECRET-set-cookie\r\n\r\n".to_vec()
+        b"HTTP/1.1 101 Switching Protocols\r\nUpgrade: websocket\r\nConnection: Upgrade\r\nSec-WebSocket-Accept: c18-accept\r\nSet-Cookie: origin=c18-SECRET-set-cookie\r\nSet-Cookie: second=c18-2nd; Path=/\r\n\r\n".to_vec()
     } else {
-        b"HTTP/1.1 200 OK\r\nContent-Type: application/x-c18\r\nX-Origin: c18\r\nSet-Cookie: origin=c18-SECRET-set-cookie\r\n\r\n".to_vec()
+        b"HTTP/1.1 200 OK\r\nContent-Type: application/x-c18\r\nX-Origin: c18\r\nSet-Cookie: origin=c18-SECRET-set-cookie\r\nSet-Cookie: second=c18-2nd; Path=/\r\n\r\n".to_vec()
     }
 }
 
